@@ -293,7 +293,7 @@ class World:
 
 def gen_shape(rng):
     nt = rng.choice([1, 2, 3])
-    attrs = rng.sample(["x", "y", "speed", "name", "k"], nt)
+    attrs = rng.sample(["x", "y", "speed", "name", "k", "_gain"], nt)      # a tunable may be a private attribute
     tun = [{"attr": a, "sub": rng.choice(["", "", "sub", a]), "type": rng.choice(TYPES), "wd": rng.random() < 0.5}
            for a in attrs]
     insitu = rng.random() < 0.35
@@ -353,6 +353,13 @@ def random_events(rng, shape):
 
 
 def run_trace(tid, shape, events):
+    # in every third trace simulated time stands still: NetworkTables timestamps do not advance between the writes
+    # (what a read returns must not depend on timestamps moving)
+    import hal.simulation as hs
+    if tid % 3 == 0:
+        hs.pauseTiming()
+    else:
+        hs.resumeTiming()
     try:
         w = World(shape)
     except Exception as e:  # noqa  - declaring the tunables / building the owner class raised
